@@ -38,7 +38,7 @@ MANUAL = {
     "state/simulation_state/update/charging_price_update.py:build": "insensitive:one default row per distinct charger id, accumulated into a Map",
 }
 SKIP_DIRS = ("resources", "reporting/handler", "initialization", "app", "config", "util/fs.py")
-INSENSITIVE_CONSUMERS = ("set", "frozenset", "dict", "Map", "sum", "any", "all", "len", "Counter", "sorted", "max", "min", "tuple_sorted")
+INSENSITIVE_CONSUMERS = ("set", "frozenset", "dict", "Map", "sum", "any", "all", "len", "Counter", "sorted")  # min/max are order-sensitive on ties
 
 
 def _unordered(node) -> str:
